@@ -30,6 +30,7 @@ func genInferFiles(r *simrt.Rand, ties bool) (files map[string]string, args []st
 		placeholder = []string{"Expenses:Unknown", "Assets:TBD", "Equity:Q"}[r.Intn(3)]
 	}
 	var tr strings.Builder
+	var recurring [][2]string // (description, quantity) of training bookings that targets may repeat verbatim
 	kind := r.Intn(7)
 	if ties {
 		kind = 5
@@ -46,6 +47,7 @@ func genInferFiles(r *simrt.Rand, ties bool) (files map[string]string, args []st
 		for k := 0; k < r.Range(1, 3); k++ {
 			d := descPool[r.Intn(len(descPool)-2)]
 			q := r.Range(1, 50)
+			recurring = append(recurring, [2]string{d, fmt.Sprint(q)})
 			fmt.Fprintf(&tr, "2020-02-%02d \"%s\"\nAssets:Bank Expenses:Food %d CHF\n\n", k+1, d, q)
 			fmt.Fprintf(&tr, "2020-02-%02d \"%s\"\nAssets:Bank Expenses:Rent %d CHF\n\n", k+1, d, q)
 			if r.P(0.5) {
@@ -70,6 +72,12 @@ func genInferFiles(r *simrt.Rand, ties bool) (files map[string]string, args []st
 	nt := r.Range(0, 8)
 	tg.WriteString("# target journal\n2021-01-01 open Assets:Bank\n\n")
 	for k := 0; k < nt; k++ {
+		if len(recurring) > 0 && r.P(0.6) {
+			// a recurring transaction: exactly the tokens of its training bookings
+			rc := recurring[r.Intn(len(recurring))]
+			fmt.Fprintf(&tg, "2021-%02d-%02d \"%s\"\nAssets:Bank %s %s CHF\n\n", r.Range(1, 12), r.Range(1, 28), rc[0], placeholder, rc[1])
+			continue
+		}
 		fmt.Fprintf(&tg, "2021-%02d-%02d \"%s\"\n", r.Range(1, 12), r.Range(1, 28), descPool[r.Intn(len(descPool)-1)])
 		nb := 1
 		if r.P(0.3) {
